@@ -5,6 +5,7 @@ C01 — AKAI export is byte-exact for every sector allocation and file length.
 import Smpl.Model.Akai
 import Smpl.Props.C07
 import Smpl.Props.C08
+import Smpl.Lemmas.ShortRead
 
 namespace Smpl.Props.C01
 open Smpl Smpl.Akai Smpl.Alloc
@@ -17,5 +18,68 @@ theorem C01_segment_eq (p : Part) (path : List Nat) :
   induction path with
   | nil => rfl
   | cons s rest ih => simp [List.flatMap_cons, ih]
+
+/-- every sector of the chain lies wholly inside the partition window. -/
+def SectorsInside (p : Part) (path : List Nat) : Prop := ∀ s ∈ path, (s + 1) * SECTOR ≤ p.content.length
+
+theorem sector_full (p : Part) (s : Nat) (h : (s + 1) * SECTOR ≤ p.content.length) :
+    ((p.content.drop (s * SECTOR)).take SECTOR).length = SECTOR := by
+  have e : (s + 1) * SECTOR = s * SECTOR + SECTOR := by rw [Nat.add_mul]; simp
+  simp only [List.length_take, List.length_drop]
+  omega
+
+/-- on a complete partition the sequential content (what headers and directories are parsed from)
+is the chain's sectors in chain order. -/
+theorem C01_prefix_is_segment (p : Part) (path : List Nat) (h : SectorsInside p path) :
+    segmentPrefix p path = segment p path := by
+  unfold segment
+  induction path with
+  | nil => rfl
+  | cons s rest ih =>
+    have hs := sector_full p s (h s (by simp))
+    simp only [segmentPrefix, List.flatMap_cons]
+    have : ¬ ((p.content.drop (s * SECTOR)).take SECTOR).length < SECTOR := by omega
+    simp only [this, if_false]
+    rw [ih (fun x hx => h x (by simp [hx]))]
+
+/-- … and the content with holes has no hole. -/
+theorem C01_holey_is_segment (p : Part) (path : List Nat) (h : SectorsInside p path) :
+    segmentHoley p path = ⟨segment p path, []⟩ := by
+  unfold segmentHoley segment
+  rw [Smpl.ShortRead.ofPieces_full SECTOR _ (by
+    intro q hq
+    rw [List.mem_map] at hq
+    obtain ⟨s, hs, rfl⟩ := hq
+    exact sector_full p s (h s hs))]
+  simp [List.flatMap]
+
+/-- **C01 (audio of a file on a complete partition).** The block-wise reader returns exactly the
+window `[off, off+len)` of the file's content — the chain's sectors in chain order, cut to the
+directory entry's size — for every chain order, size, offset and length. -/
+theorem C01_file_audio (p : Part) (path : List Nat) (h : SectorsInside p path) (size off len : Nat) :
+    Smpl.ShortRead.readForward ((segmentHoley p path).clip size) off len
+      = (((segment p path).take size).drop off).take len := by
+  rw [C01_holey_is_segment p path h]
+  exact Smpl.ShortRead.readForward_complete _ (by simp [Smpl.ShortRead.Holey.clip, Smpl.ShortRead.Holey.complete]) off len
+
+/-- **C01 (one sample file, end to end on the model).** On a complete partition, a directory entry
+of sample type whose chain resolves to `path` and whose header parses to `h` is realised as the
+sample with header `h` and exactly the bytes `[140 + 2·start, 140 + 2·end)` of the file content
+(sectors of `path` in chain order, cut to the entry's size) — for any chain order and any length. -/
+theorem C01_realize_sample (p : Part) (e : FileEntry) (path : List Nat) (h : SampleHdr)
+    (programOk : Bytes → Bool)
+    (hpath : getPath p.links SAT_ENTRIES e.start = .ok path) (hin : SectorsInside p path)
+    (hty : isSampleType e.ftype = true)
+    (hhdr : parseSampleHdr ((segment p path).take e.size) = some h) :
+    realizeFile p e programOk = some ⟨e.name, e.ftype,
+      .sample h (window ((segment p path).take e.size) (SAMPLE_HEADER_BYTES + 2 * h.start)
+        (2 * ((h.end_ : Int) - h.start)))⟩ := by
+  unfold realizeFile
+  simp only [hpath, hty, if_true, C01_prefix_is_segment p path hin, hhdr, Option.map_some]
+  congr 3
+  unfold window
+  split
+  · rfl
+  · rw [C01_file_audio p path hin]
 
 end Smpl.Props.C01
